@@ -8,6 +8,7 @@ import (
 	v1 "k8s.io/api/core/v1"
 	"k8s.io/apimachinery/pkg/api/resource"
 	metav1 "k8s.io/apimachinery/pkg/apis/meta/v1"
+	"k8s.io/apimachinery/pkg/types"
 )
 
 const (
@@ -120,7 +121,7 @@ func (e *Env) RemoveNodeAndPods(name string) {
 	for _, k := range e.K.SortedPodKeys() {
 		p := e.K.Pods[k]
 		if p.Spec.NodeName == name {
-			if IsDaemonSetPod(p) {
+			if IsDaemonSetPod(p) || p.Labels["verif/group"] == "stray" {
 				e.K.DeletePodObj(k)
 				continue
 			}
@@ -159,6 +160,7 @@ func (e *Env) BuildPod(gi int, cpu, mem int64, shape PodShape) *v1.Pod {
 	spec := &e.Groups[gi]
 	p := &v1.Pod{
 		ObjectMeta: metav1.ObjectMeta{Name: fmt.Sprintf("pod-%c%06d", rune('a'+gi), e.podSeq[gi]), Namespace: "batch",
+			UID: types.UID(fmt.Sprintf("uid-%c%06d", rune('a'+gi), e.podSeq[gi])),
 			OwnerReferences: []metav1.OwnerReference{{Kind: "Job", Name: "job"}}},
 		Spec: v1.PodSpec{
 			Containers: []v1.Container{{Name: "main", Resources: v1.ResourceRequirements{Requests: v1.ResourceList{
